@@ -39,6 +39,7 @@ class Model:
 
     def build(self):
         closes = collections.defaultdict(list)
+        sends = collections.defaultdict(list)
         self.servers = collections.defaultdict(dict)
         # --- event timestamps (some events expand into several instants)
         for tid, evs in self.threads.items():
@@ -63,6 +64,8 @@ class Model:
                     e['first'] = e['last'] = self.tv(n)
                 if k == 'close':
                     closes[e['args'][0]].append(e)
+                if k in ('trysend_ok', 'trysend_dropped'):
+                    sends[e['args'][0]].append(e)
                 if k == 'abort':
                     self.problems.append('goroutine %d aborts: %s' % (tid, e['args']))
         # --- program order and goroutine start
@@ -80,6 +83,24 @@ class Model:
             for e in evs:
                 if e['kind'] == 'recv':
                     cs = closes.get(e['args'][0], [])
+                    # the instant the goroutine parks on the channel: after its previous event (or its start), before the receive completes
+                    arrive = self.tv(e['name'] + '_arrive')
+                    self.cons.append(arrive > (evs[e['idx'] - 1]['last'] if e['idx'] > 0 else self.thread_start(tid)))
+                    self.cons.append(arrive < e['first'])
+                    wake = []
+                    for sd in sends.get(e['args'][0], []):
+                        if sd['kind'] == 'trysend_ok':       # hand-over: the receiver was already parked
+                            self.cons.append(arrive < sd['first'])
+                            wake.append(sd)
+                        else:                                   # dropped: nobody was parked yet
+                            self.cons.append(sd['first'] < arrive)
+                    if wake or (sends.get(e['args'][0]) and not cs):
+                        if not wake and not cs:
+                            self.problems.append('receive at %s can never complete: the only wake-up is a non-blocking send that is dropped when it comes before the receiver is parked (deadlock)' % e['pos'])
+                            self.deadlock_feasible = True
+                        else:
+                            self.cons.append(z3.Or(*[c['last'] < e['first'] for c in cs + wake]))
+                        continue
                     if not cs:
                         self.problems.append('receive at %s can never complete: the channel is never closed (deadlock)' % e['pos'])
                         self.cons.append(z3.BoolVal(False))
@@ -134,6 +155,13 @@ class Model:
                     if x['args'][1] == 'background':
                         self.cons.append(z3.Implies(accepted, fin < x['last']))
                     # a deadline context may return before the request finishes: no constraint
+
+    def thread_start(self, tid):
+        for t2, evs in self.threads.items():
+            for e in evs:
+                if e['kind'] == 'go' and e['args'][0] == tid:
+                    return e['last']
+        return z3.IntVal(0)
 
     def t_note(self, note):
         i = self.notes.get(note)
